@@ -360,8 +360,8 @@ def main_check(modname, tier, seed, replay=None):
         "wall_s": round(wall, 2),
         "violations": len(fresh),
     }
-    evdir = VERIF / "evidence"
-    evdir.mkdir(exist_ok=True)
+    evdir = Path(os.environ.get("VERIF_EVIDENCE_DIR", VERIF / "evidence"))
+    evdir.mkdir(parents=True, exist_ok=True)
     (evdir / f"{prop}.json").write_text(json.dumps(evidence, indent=1, default=repr) + "\n")
 
     # ---- verdict
@@ -371,7 +371,7 @@ def main_check(modname, tier, seed, replay=None):
     rc = 0
     if fresh:
         print("# violations by mechanism:", {k[5:]: v for k, v in sorted(counters.items()) if k.startswith("viol:")})
-        rdir = VERIF / "replays" / prop
+        rdir = Path(os.environ.get("VERIF_REPLAY_DIR", VERIF / "replays")) / prop
         rdir.mkdir(parents=True, exist_ok=True)
         seen = set()
         for v in fresh[:10]:
